@@ -265,7 +265,8 @@ def i_JALR(ins, fmap):
     dst, src1, imm = ins.operands
     if dst is not zero:
         fmap[dst] = fmap(pc + ins.length)
-    fmap[pc] = fmap(src1 + imm)
+    # the least-significant bit of the target is cleared
+    fmap[pc] = fmap(src1 + imm) & ~1
 
 
 def i_BEQ(ins, fmap):
